@@ -101,8 +101,9 @@ structure U where
   ws : Watch := {}
   /-- the retry-delay sleep -/
   ds : Timer := { remaining := 0 }
-  /-- the leak-timeout sleep (a plain tokio sleep: not pausable) -/
+  /-- the leak-timeout sleep (pausable; restarted whenever the loop of `detect_fd_leaks` comes round) -/
   ls : Nat := 0
+  lsPaused : Bool := false
   hits : Nat := 0
   /-- `cx.slow_after.is_some()` -/
   slow : Bool := false
@@ -179,7 +180,14 @@ def onReq (c : Cfg) (u : U) (r : Req) : U × List Act :=
   | .draining =>
     (match r with
      | .getInfo => (u, [.info .exiting])
-     | _ => (u, []))      -- signals are moot, a Stop's oneshot is dropped un-answered
+     | .stop =>
+       -- the process is gone: nothing to stop, but the stopwatch and the leak timer must not count stopped time
+       -- (each is paused unless it already is); the Stop is acknowledged
+       ({ u with sw := { u.sw with paused := true }, lsPaused := true }, [.ack])
+     | .cont =>
+       -- each is resumed if it is paused
+       ({ u with sw := { u.sw with paused := false }, lsPaused := false }, [])
+     | _ => (u, []))      -- shutdown signals and cancellation are moot
   | .delay =>
     (match r with
      | .stop =>
@@ -202,7 +210,7 @@ def nextDue (u : U) : Option Nat :=
   match u.phase with
   | .running => if u.timedOut then none else u.is.due
   | .terminating _ => u.gs.due
-  | .draining => some u.ls
+  | .draining => if u.lsPaused then none else some u.ls
   | .delay => u.ds.due
   | .done => none
 
@@ -211,7 +219,7 @@ def elapse (u : U) (d : Nat) : U :=
   match u.phase with
   | .running => { u with sw := u.sw.tick d, is := if u.timedOut then u.is else u.is.tick d }
   | .terminating _ => { u with sw := u.sw.tick d, gs := u.gs.tick d, ws := u.ws.tick d, is := if u.timedOut then u.is else u.is.tick d }
-  | .draining => { u with sw := u.sw.tick d, ls := u.ls - d }
+  | .draining => { u with sw := u.sw.tick d, ls := if u.lsPaused then u.ls else u.ls - d }
   | .delay => { u with ds := u.ds.tick d, ws := u.ws.tick d }
   | .done => u
 
@@ -253,7 +261,7 @@ def step (c : Cfg) (u : U) : Ev → U × List Act
   | .time dt => advance c u dt
   | .childExit =>
     (match u.phase with
-     | .running => ({ u with phase := .draining, ls := c.leak }, [])
+     | .running => ({ u with phase := .draining, ls := c.leak, lsPaused := false }, [])
      | .terminating _ => ({ u with phase := .running }, [])     -- terminate_child returns; the main loop's wait then returns too
      | _ => (u, []))
   | .fdsDone =>
